@@ -21,6 +21,23 @@ C13_MODULES = ["contracts.core_models", "contracts.c09_bounded", "contracts.c13_
 C06_MODULES = C05_MODULES + ["contracts.c13_types", "contracts.c06_names", "contracts.c06_ports", "contracts.c06_stmts"]
 
 PROPERTIES = {
+    "C08": {
+        "modules": ["contracts.core_models", "contracts.c08_temporaries", "contracts.c08_cleanup"],
+        "level": "proof",
+        "explanation": "the definite-assignment analysis of compiler-generated intermediates (detect_uninitialized_temporaries / search_invalid_temporaries) is proved sound against the textbook definite-assignment semantics of if / case (with and without default) / sequence by structural induction: sidecar loop invariants for the statement loop and the case-branch loop, the function's own contract as induction hypothesis for recursive calls, sets of object identities as z3 sets; every read (direct or through a reference path) is shown to reach the check; cleanup_unused is proved to remove only assignments whose root is read nowhere; StatemachineContext._check_temporaries is proved to accept a state only if the first access to every intermediate is a write",
+        "assumptions": COMMON_ASSUME + [
+            "id() is injective on live objects; Python sets of ids are mathematical sets",
+            "IR statements report every object they read / write through visit_objects (per-class completeness is the subject of the C07 contracts)",
+            "temporaries marked maybe_uninitialized are exempt from the analysis by design (the user opted out)",
+            "NOT decided: read/write order recomputed on the emitted process text; cleanup_bool_cast (cosmetic pass) is under a bounded structural check only",
+        ],
+        "canaries": [
+            {"name": "case-intersection", "contract": "cohdl._compiler.frontend._generate_ir:ConvertInstance.detect_uninitialized_temporaries", "case": "any-context", "file": "cohdl/_compiler/frontend/_generate_ir.py",
+             "old": "                            always_defined &= branch_temporaries", "new": "                            always_defined.difference_update(branch_temporaries)"},
+            {"name": "if-union", "contract": "cohdl._compiler.frontend._generate_ir:ConvertInstance.detect_uninitialized_temporaries", "case": "any-context", "file": "cohdl/_compiler/frontend/_generate_ir.py",
+             "old": "                    always_defined = body_temporaries & else_temporaries", "new": "                    always_defined = body_temporaries | else_temporaries"},
+        ],
+    },
     "C06": {
         "modules": C06_MODULES,
         "level": "proof",
